@@ -5,7 +5,6 @@ import (
 	"sort"
 	"strings"
 
-	utils "github.com/acekingke/yaccgo/Utils"
 
 	"verif/harness/gen"
 	"verif/harness/render"
@@ -149,8 +148,14 @@ func parseListing(out string) (states map[int]*listedState, order []int, las []s
 	return states, order, las, nil
 }
 
+// dotName is how a symbol must appear in the DOT text: literals as 'c' (the
+// oracle does not call the repository's own naming helper).
 func dotName(n string) string {
-	return strings.TrimSpace(utils.RemoveTempName(n))
+	const pre = "$operator"
+	if strings.HasPrefix(n, pre) && len(n) > len(pre) {
+		return "'" + n[len(pre):] + "'"
+	}
+	return n
 }
 
 func (c18) Run(seed int64, tier string, idx int) (o Outcome) {
